@@ -284,6 +284,32 @@ def St.iter (c : Cfg K V) (s : St K V) (lo hi : Option K) (asc : Bool) : St K V 
         | (s', .errGas) => (s', acc.2))      -- `if err != nil { continue }`
     (s, [])
 
+/-- the keys `State.IterateRangeAll` visits: the keys of the working tree, of the block cache and
+    of the open session that lie in `[lo, hi)`, each once, in iteration order (`withPendingKeys`:
+    the tree's keys plus the pending ones, re-sorted) -/
+def St.iterKeys (c : Cfg K V) (s : St K V) (lo hi : Option K) (asc : Bool) : List K :=
+  let inR (k : K) : Bool :=
+    (match lo with | none => true | some l => !c.lt k l) &&
+    (match hi with | none => true | some h => c.lt k h)
+  let all := (akeys s.tree.working ++ akeys s.cache ++
+    (match s.sess with | some o => akeys o | none => [])).eraseDups
+  let ks := sortKeys c.lt (all.filter inR)
+  if asc then ks else ks.reverse
+
+/-- `State.IterateRangeAll`: like `IterateRange`, but the keys are those of the tree AND those
+    pending in the block cache or the session (an iteration that visits what `Get` would find);
+    values are read through `State.Get`, keys with a pending delete are skipped, a refused read
+    skips the key -/
+def St.iterAll (c : Cfg K V) (s : St K V) (lo hi : Option K) (asc : Bool) : St K V × List (K × Option V) :=
+  (s.iterKeys c lo hi asc).foldl
+    (fun (acc : St K V × List (K × Option V)) k =>
+      if acc.1.deleted c k then acc
+      else
+        match acc.1.get c k with
+        | (s', .val v) => (s', acc.2 ++ [(k, v)])
+        | (s', .errGas) => (s', acc.2))      -- `if err != nil { continue }`
+    (s, [])
+
 /-! ### operations and outputs (the line protocol of the `kv` engine) -/
 
 inductive Op (K V : Type) where
@@ -293,6 +319,7 @@ inductive Op (K V : Type) where
   | get (k : K)
   | has (k : K)
   | iter (lo hi : Option K) (asc : Bool)
+  | iterAll (lo hi : Option K) (asc : Bool)   -- `IterateRangeAll`
   | begin
   | csess
   | dsess
@@ -325,6 +352,7 @@ def step (c : Cfg K V) (s : St K V) : Op K V → St K V × Out K V
   | .get k => let (s', r) := s.get c k; (s', match r with | .val v => .val v | .errGas => .errGas)
   | .has k => let (s', b) := s.has c k; (s', .bool b)
   | .iter lo hi asc => let (s', l) := s.iter c lo hi asc; (s', .list l)
+  | .iterAll lo hi asc => let (s', l) := s.iterAll c lo hi asc; (s', .list l)
   | .begin => (s.begin, .ok)
   | .csess => match s.csess with | some s' => (s', .ok) | none => (s, .panic)
   | .dsess => (s.dsess, .ok)
